@@ -393,6 +393,67 @@ func ruleS7(r *Run) {
 				}
 				return true
 			})
+			// limit := int64(MaxRequestLength); if limit < math.MaxInt64 { limit++ }: the bound is a local that starts at the
+			// limit and is raised, unconditionally or under a test that it is below the maximum of its type (where it is
+			// not, nothing can exceed it)
+			raised := int64(0)
+			if o := identObj(info, bound); !mentions && o != nil {
+				var def ast.Expr
+				okLocal := true
+				parents := parentMap(fd.Body)
+				ast.Inspect(fd.Body, func(k ast.Node) bool {
+					switch x := k.(type) {
+					case *ast.AssignStmt:
+						for i, l := range x.Lhs {
+							if identObj(info, l) != o {
+								continue
+							}
+							switch {
+							case x.Tok == token.DEFINE && len(x.Lhs) == len(x.Rhs) && def == nil:
+								def = x.Rhs[i]
+							case x.Tok == token.ADD_ASSIGN && len(x.Rhs) == 1:
+								if c, isC := intConst(info, x.Rhs[0]); isC && c > 0 {
+									raised += c
+								} else {
+									okLocal = false
+								}
+							default:
+								okLocal = false
+							}
+						}
+					case *ast.IncDecStmt:
+						if identObj(info, x.X) == o {
+							if x.Tok != token.INC {
+								okLocal = false
+								return true
+							}
+							raised++
+							// conditional only on being below the maximum
+							for a := parents[k]; a != nil && a != ast.Node(fd.Body); a = parents[a] {
+								if ifs, isIf := a.(*ast.IfStmt); isIf {
+									be, isBin := ast.Unparen(ifs.Cond).(*ast.BinaryExpr)
+									if !isBin || identObj(info, be.X) != o || !strings.Contains(types.ExprString(be.Y), "Max") || be.Op != token.LSS && be.Op != token.NEQ {
+										okLocal = false
+									}
+								}
+							}
+						}
+					}
+					return true
+				})
+				if def != nil && okLocal {
+					ast.Inspect(def, func(k ast.Node) bool {
+						if se, ok := k.(*ast.SelectorExpr); ok && se.Sel.Name == "MaxRequestLength" {
+							mentions = true
+							limit = se
+						}
+						return true
+					})
+					if mentions {
+						bound = def
+					}
+				}
+			}
 			if !mentions {
 				return true
 			}
@@ -400,6 +461,7 @@ func ruleS7(r *Run) {
 			perFn++
 			key := fmt.Sprintf("%s bound in %s #%d", kind, p.DeclName(fd), perFn)
 			d := linOfExpr(info, bound).sub(linOfExpr(info, limit))
+			d.c += raised
 			if d.isConst() && d.c >= 1 {
 				r.Ok(key, call.Pos(), fmt.Sprintf("lets limit+%d bytes through: the length test can see an oversized body", d.c))
 				return true
